@@ -171,4 +171,23 @@ CHECKS['C04'] = dict(title='Argument evaluation is memory-safe for every argumen
     bound={'quick': 'raw: 1110 first words x 110 second words; tokens: lines <= 3 of 59 tokens; 69 program names', 'thorough': 'raw: 1110 x 1110, 3 words of <= 2 chars; tokens: lines <= 4 (4th token in plain mode)'},
     assumptions=['argc >= 1 and argv[argc] == nullptr (what the C runtime guarantees)', 'exit() is interposed: the help arguments are used with "continue after usage"'])
 
+CHECKS['C18'] = dict(title='The usage lists exactly the visible arguments, each once', engine='xenum',
+    harness=['harness/c18_usage.cpp'], flags='asan', lib=True, level='model_checking', deadline={'quick': 240, 'thorough': 2400}, hang_s=60,
+    technique='bounded-exhaustive enumeration: all argument sets up to a size over key kind/length, mandatory, visibility, description and feature domains x ALL usage display settings, usage text parsed and compared with a reference visibility predicate',
+    level_text='every set of 1 and 2 (thorough: 3) arguments over {short, long, both} x long-key lengths around the same-line threshold x mandatory/optional x {normal, hidden, deprecated, replaced, hidden+deprecated} x 3 description shapes x {check, default off, constraint}, displayed with every combination of -h/--help, print-hidden {off, flag, argument}, print-deprecated {off, flag, argument}, contents {all, short, long}; plus single-argument help for every spelling of every key and for unknown keys',
+    level_note='oracle parses the real usage text (entry = line with 3 blanks and a dash) and trusts a 3-line visibility predicate taken from the property statement; standard arguments (help, print-hidden, ...) are checked like user arguments; order of entries inside a caption is not judged',
+    rule='argument set (odometer over per-argument domains) x display setting; states = (argument set, display setting), transitions = evalArguments calls that print a usage or a single-argument help; non-trivial = argument sets',
+    bound={'quick': '1 argument: full domain (810 sets) x 54 display settings; 2 arguments: 8100 (shape, mandatory, visibility) pairs with description/feature on a diagonal x 12 display settings',
+           'thorough': '2 arguments: 8100 pairs x 12 description/feature combinations x 54 display settings; 3 arguments: 110592 triples (6 shapes, 4 visibilities) x 12 display settings'},
+    assumptions=['mandatory + deprecated/replaced is refused by the library at definition time: skipped and counted', 'the default value is expected for optional arguments unless switched off (the statement says "where configured")'])
+
+CHECKS['C15'] = dict(title='Rolling log files keep the most recent messages, complete and in order', engine='xstate',
+    harness=['harness/c15_rolling.cpp'], flags='asan', lib=True, level='model_checking', deadline={'quick': 240, 'thorough': 2400}, hang_s=60,
+    technique='explicit-state model checking of the real file handler: every history of message/restart/crash events up to a depth, executed on real files, invariants and a transition relation checked after every event; crash points inside the roll-over enumerated',
+    level_text='21 policies (Counted 1..3 entries, MaxSize 5/8/12/20 bytes, 1..3 generations) x every history of <= 6 (quick) / <= 8 (thorough) events over {message of 1, 3, 6 characters, clean restart}; thorough adds crash-without-destructor and a crash at every rename point inside a roll-over (histories <= 6); after every event the files on disk are compared with the list of all messages written',
+    level_note='oracle: retained generations = suffix of all messages, per-generation limit, generation count, and a transition check (append or justified roll-over); a roll-over at restart is tolerated when generation 0 cannot take any message; crashes are placed at file-function boundaries (rename), torn writes of a single message are outside',
+    rule='history (sequence of events, DFS) per policy; state = (policy, per-generation message lengths, policy counter), transitions = events executed on the real handler; evaluations = histories checked; non-trivial = (policy, first two events) subtrees',
+    bound={'quick': 'histories <= 6 events over {m1,m3,m6,R}', 'thorough': 'histories <= 8 over {m1,m3,m6,R}; histories <= 6 over {m1,m3,m6,R,C, mL!k for k = 0..2}'},
+    assumptions=['every message is flushed by std::endl before the call returns, so every point between two events is a crash point', 'messages are unique (sequence digit + letters), lengths 1/3/6: longer than, equal to and shorter than the small limits'])
+
 NOT_APPLICABLE = [e for e in NOT_APPLICABLE if e['property_id'] not in CHECKS]
